@@ -510,8 +510,8 @@ type Spec struct {
 	HTTP       bool    `json:"http"` // real HTTPDeliverer over the in-memory transport
 	U          float64 `json:"u"`    // harness answer for rand.Float64
 	Msgs       []Msg   `json:"msgs"`
-	StopAfter  int     `json:"stop_after"`  // >0: stop after that many settled sends
-	Requeue    int     `json:"requeue"`     // how often dead messages are requeued from the DLQ (new cycles)
+	StopAfter  int     `json:"stop_after"`   // >0: stop after that many settled sends
+	Requeue    int     `json:"requeue"`      // how often dead messages are requeued from the DLQ (new cycles)
 	MaxPerLife int     `json:"max_per_life"` // runaway guard (sends per message and cycle)
 	DrainAtMS  int     `json:"drain_at_ms"`  // >0: Drain is called at that virtual time instead of at the end of the history
 }
